@@ -1054,6 +1054,7 @@ func main() {
 	run.Def(M, "resolve", runResolve)
 	run.Def(M, "omit", runOmit)
 	run.Def(M, "v1", runV1)
+	run.Def(M, "legacy-continue", runLegacyContinue)
 	M.Gen = generate
 	run.Main(M)
 }
@@ -1187,6 +1188,8 @@ func wideStruct(r *rand.Rand, n int) string {
 }
 
 func generate(w *run.W) {
+	lci := 0
+	genLegacyContinue(w, func() bool { lci++; return w.Mine(lci) })
 	nb := w.Pick(300, 3000)
 	for b := 0; b < nb; b++ {
 		if !w.Mine(b) {
